@@ -1194,3 +1194,64 @@ theorem steady_face_balance (P : Prob ℝ) (T : GField ℝ) (hst : P.steady = tr
 
 end
 end SrModel.Thermal
+
+namespace SrModel.Thermal
+open Finset
+noncomputable section
+
+/-- stored heat only looks at real nodes -/
+theorem energy_congr (P : Prob ℝ) (T T' : GField ℝ)
+    (h : ∀ i j k, P.isRealI i = true → P.isRealJ j = true → P.isRealK k = true → T i j k = T' i j k) :
+    P.energy T = P.energy T' := by
+  unfold Prob.energy
+  apply Finset.sum_congr rfl; intro i hi
+  apply Finset.sum_congr rfl; intro j hj
+  apply Finset.sum_congr rfl; intro k hk
+  rw [h i j k ((mem_setI P i).1 hi) ((mem_setJ P j).1 hj) ((mem_setK P k).1 hk)]
+
+/-- net heat input of one transient step (wall faces + source), the right-hand side of `step_balance` -/
+def Prob.heatIn (P : Prob ℝ) (T : GField ℝ) : ℝ :=
+  P.dt * ((∑ j ∈ P.setJ, ∑ k ∈ P.setK, (P.outerFace T j k - P.innerFace T j k)) / (P.dr * P.dr))
+    + P.dt * ∑ i ∈ P.setI, ∑ j ∈ P.setJ, ∑ k ∈ P.setK, P.rr i * (P.qc i j k * P.src i j k)
+
+/-- **Energy balance of a whole history** (any number of steps and sub-steps, coefficients
+re-evaluated every step): total change of stored heat = sum of the per-step heat inputs. All
+problems share the grid (`energy` is taken with the first problem's radii and index sets). -/
+theorem history_balance (P : Nat → Prob ℝ) (T : Nat → GField ℝ)
+    (hgrid : ∀ n, (P n).energy = (P 0).energy)
+    (hst : ∀ n, (P n).steady = false) (hsol : ∀ n, (P n).Solves (T (n+1)))
+    (hcp : ∀ n, (P n).CPeriodic) (hr : ∀ n i, (P n).isRealI i = true → (P n).rr i ≠ 0)
+    (hprev : ∀ n i j k, (P n).isRealI i = true → (P n).isRealJ j = true → (P n).isRealK k = true →
+      (P n).Tn i j k = T n i j k) (N : Nat) :
+    (P 0).energy (T N) - (P 0).energy (T 0) = ∑ n ∈ Finset.range N, (P n).heatIn (T (n+1)) := by
+  induction N with
+  | zero => simp
+  | succ m ih =>
+    rw [Finset.sum_range_succ, ← ih]
+    have hb := step_balance (P m) (T (m+1)) (hst m) (hsol m) (hcp m) (hr m)
+    have he := energy_congr (P m) (P m).Tn (T m) (hprev m)
+    rw [he, hgrid m] at hb
+    unfold Prob.heatIn
+    linarith
+
+/-- a point-wise material law (coefficients are functions of the previous temperature at the same
+node) commutes with the rotation of the data: the lagged coefficients of the rotated problem are the
+law applied to the rotated previous field — this is what lets `solves_rot` be iterated over steps
+with a temperature-dependent material -/
+theorem material_law_rot (P : Prob ℝ) (a kfun : ℝ → ℝ)
+    (hc : ∀ i j k, P.c i j k = a (P.Tn i j k)) (hk : ∀ i j k, P.kk i j k = kfun (P.Tn i j k)) :
+    (∀ i j k, P.rot.c i j k = a (P.rot.Tn i j k)) ∧ (∀ i j k, P.rot.kk i j k = kfun (P.rot.Tn i j k)) := by
+  constructor
+  · intro i j k; simp [Prob.rot, hc]
+  · intro i j k; simp [Prob.rot, hk]
+
+/-- **Rotation equivariance of whole histories**: if every step's data are the rotated data of the
+corresponding step of another history, the rotated solutions solve them, step by step. -/
+theorem history_rot (P : Nat → Prob ℝ) (T : Nat → GField ℝ)
+    (hnd : ∀ n, (P n).ndim ≥ 2) (h2 : ∀ n, 2 ≤ (P n).Nt) (hc : ∀ n, (P n).CPeriodicPt)
+    (hsol : ∀ n, (P n).Solves (T (n+1))) :
+    ∀ n, (P n).rot.Solves (GField.rot (P n).Nt (T (n+1))) :=
+  fun n => solves_rot (P n) (T (n+1)) (hnd n) (h2 n) (hc n) (hsol n)
+
+end
+end SrModel.Thermal
